@@ -79,7 +79,7 @@ func c01(ctx *core.Ctx) {
 	ctx.Rule("seeded tables (1-3 WebServices, every 4th container had its router switched back and forth first; variable/regex roots, literal/{v}/{v:re}/{v}suffix/{v:*}/:verb segments, Consumes/Produces, If-conditions) x requests (template-derived hits, single-mutation near misses, adversarial); both routers; Dispatch and ServeHTTP; every 3rd table also replays its requests from 8 concurrent goroutines. Oracle runs on every route-function invocation. Non-trivial = an invocation or a refused near miss; distinct by (router, entry, template kind-shape, request class, outcome class).")
 	ctx.Assume("reference matcher is three-valued; partial regex matches, empty segments and zero-length tail wildcards are not judged (DESIGN §4)",
 		"requests are hand-built http.Requests with consistent ContentLength/Content-Length")
-	tables := ctx.N(4000, 60000)
+	tables := ctx.N(4000, 400000)
 	perTable := ctx.N(40, 60)
 	if !ctx.Quick() {
 		perTable = 60
@@ -212,7 +212,7 @@ func c02(ctx *core.Ctx) {
 	ctx.Rule("same generators as C01 plus an adversarial path/header pool and extension methods (LOCK, UNLOCK, FIND, PROPFIND, OPTIONS routes). Each request is dispatched with trace logging off and on; every 3rd table replays its requests from 8 concurrent goroutines. Oracle: no panic, at most one invocation, outcome class (invoke/404/405+Allow/415/406) is one admitted by the reference staged elimination (best root under literal>variable and longer>prefix, weak mode when roots are incomparable or a variable root competes under RouterJSR311). Non-trivial = a judged request; distinct by (router, request class, reference stage, outcome class).")
 	ctx.Assume("cases whose classification depends on an unspecified match are counted in unspecified_skipped and get a totality verdict only",
 		"ServeHTTP is judged for totality only: net/http's mux rewrites unclean paths (DESIGN §4.9)")
-	tables := ctx.N(4000, 60000)
+	tables := ctx.N(4000, 400000)
 	perTable := ctx.N(40, 60)
 	if !ctx.Quick() {
 		perTable = 60
